@@ -12,6 +12,8 @@ import BindgenModel.Driver.C15
 import BindgenModel.Driver.C18
 import BindgenModel.Driver.C04
 import BindgenModel.Driver.C01
+import BindgenModel.Driver.C02
+import BindgenModel.Driver.C06
 /-! `bgmodel`: one request per input line, one answer per output line (lines between `ir-begin`
 and `ir-end` load an IR dump and produce no output). -/
 open BindgenModel
@@ -42,6 +44,8 @@ def dispatch (st : St) (line : String) : St × Option String :=
   | "pp" :: rest => (st, some (Driver.C18.handle rest))
   | "c04" :: rest => (st, some (Driver.C04.handle rest))
   | "c01" :: rest => (st, some (Driver.C01.handle rest))
+  | "lay" :: rest => (st, some (Driver.C02.handle rest))
+  | "lt" :: rest => (st, some (Driver.C06.handle rest))
   | _ => (st, some "bad-op")
 
 partial def loop (h : IO.FS.Stream) (out : IO.FS.Stream) (st : St) : IO Unit := do
